@@ -154,6 +154,27 @@ Theorem c14_modules_of_stream : forall l m,
 Proof. exact read_modules_spec. Qed.
 Print Assumptions c14_modules_of_stream.
 
+(* Linux / Android: whenever the membership function agrees with the translated name tables, every crash
+   reason has a predicted Display string (signal name, " / " si_code name or 0x%08x, or the refined
+   "SIGSEGV / SEGV_MAPERR" form); an unknown signal renders as "unknown 0x.. / 0x..". *)
+Theorem c14_linux_reason_string : forall (lk : Z -> Z -> bool),
+  (forall v, lk EN_LINUX v = true -> name_of NAMES_ExceptionCodeLinux v <> None) ->
+  (forall v, lk EN_SIGILL v = true -> name_of NAMES_ExceptionCodeLinuxSigillKind v <> None) ->
+  (forall v, lk EN_SIGTRAP v = true -> name_of NAMES_ExceptionCodeLinuxSigtrapKind v <> None) ->
+  (forall v, lk EN_SIGFPE v = true -> name_of NAMES_ExceptionCodeLinuxSigfpeKind v <> None) ->
+  (forall v, lk EN_SIGSEGV v = true -> name_of NAMES_ExceptionCodeLinuxSigsegvKind v <> None) ->
+  (forall v, lk EN_SIGBUS v = true -> name_of NAMES_ExceptionCodeLinuxSigbusKind v <> None) ->
+  (forall v, lk EN_SIGSYS v = true -> name_of NAMES_ExceptionCodeLinuxSigsysKind v <> None) ->
+  forall c e o, o = OsLinux \/ o = OsAndroid -> reason_string (crash_reason lk o c e) <> None.
+Proof. exact linux_reason_string. Qed.
+Print Assumptions c14_linux_reason_string.
+
+Example c14_nonvacuous_reason_string :
+  reason_string (LinuxSigsegv, [1]) = Some [83; 73; 71; 83; 69; 71; 86; 32; 47; 32; 83; 69; 71; 86; 95; 77; 65; 80; 69; 82; 82] /\
+  reason_string (LinuxGeneral, [11; 128]) = Some [83; 73; 71; 83; 69; 71; 86; 32; 47; 32; 83; 73; 95; 75; 69; 82; 78; 69; 76] /\
+  reason_string (Unknown, [11; 1]) = Some [117; 110; 107; 110; 111; 119; 110; 32; 48; 120; 48; 48; 48; 48; 48; 48; 48; 98; 32; 47; 32; 48; 120; 48; 48; 48; 48; 48; 48; 48; 49].
+Proof. vm_compute. repeat split. Qed.
+
 (* ---- non-vacuity ---- *)
 Definition ex_dump : dump :=
   {| d_platform := 2; d_arch := 0; d_time := 7;
